@@ -138,6 +138,17 @@ UNITS = {
              'find': 'path = concat_nodes(path, begin, end, None)?;', 'replace': 'path = concat_nodes(path, begin + 1, end, None)?;'},
         ],
     },
+    'v_eol': {
+        'tpl': 'units/v_eol.rs.tpl', 'rlimit': 30,
+        'mutants': [
+            {'name': 'blank line keeps its terminator (the repaired defect F9)', 'file': 'sudachi-cli/src/main.rs',
+             'find': "if len > 0 && bytes[len - 1] == b'\\n' {", 'replace': "if len > 1 && bytes[len - 1] == b'\\n' {"},
+            {'name': 'carriage return stripped without a line feed', 'file': 'sudachi-cli/src/main.rs',
+             'find': "if len > 0 && bytes[len - 1] == b'\\n' {", 'replace': "if len > 0 && (bytes[len - 1] == b'\\n' || bytes[len - 1] == b'\\r') {"},
+            {'name': 'strips two characters for a bare line feed', 'file': 'sudachi-cli/src/main.rs',
+             'find': "if len > 0 && bytes[len - 1] == b'\\r' {", 'replace': "if len > 0 {"},
+        ],
+    },
 }
 
 NOT_APPLICABLE = {
@@ -147,6 +158,13 @@ for _i in range(1, 21):
     NOT_APPLICABLE.setdefault('C%02d' % _i, 'not yet under contract in this revision of /verif (see DESIGN.md build order)')
 
 PROPS = {
+    'C19': {
+        'level_text': 'ONE clause of C19 is decided: Verus proves on the real strip_eol (sudachi-cli/src/main.rs), for every line, that the analysed text is the line without one trailing "\\n" or "\\r\\n" and that the unsafe from_utf8_unchecked is applied to valid UTF-8 - so a blank line is analysed as the empty string',
+        'level_note': 'everything else in C19 (PyO3 objects and GIL handling, per-call mode override, output list reuse, column format of the CLI, interpreter crashes) is outside any contract within reach of the installed verifiers and is NOT checked: a change there is not detected by this check',
+        'verus': ['v_eol'],
+        'kani': [],
+        'assumptions': ['std::str::from_utf8_unchecked contract (valid UTF-8 in, same bytes out)', 'vstd::utf8 lemmas'],
+    },
     'C14': {
         'level_text': 'Verus proves on the real concat_nodes / concat_oov_nodes (merged_at: the run old[b..e) becomes one token with exactly the union of the byte and code-point ranges, all other tokens unchanged and in order) and on the real JoinKatakanaOovPlugin::rewrite_gen (every index in range, the scan terminates, and the output is a coarsening of the input path: predicate is_coarsening) and JoinNumericPlugin::rewrite_gen / concat (every index and i32/usize conversion in range, output is a coarsening) for every path and every text',
         'level_note': 'assumed: character-class queries (InputTextIndex) are pure functions of the text; nodes of the incoming path are non-empty, contiguous, inside the text and have head_word_length <= byte span (path_ok; established by the lattice/tokenizer, not yet chained); JoinNumericPlugin::rewrite_gen/concat: same coarsening result and index safety, but its termination (restarting scan) is NOT proved (exec_allows_no_decreases_clause), the NumericParser is an opaque collaborator here (C15), and a lone numeral may be re-issued with a new normalised form',
